@@ -140,12 +140,15 @@ func mkC01() *Scenario {
 			Script: []*ScriptItem{
 				{Label: "start", Do: func(w *World) { w.CmdStart() }},
 				{Label: "connect p1", When: func(w *World) bool { return w.Listening() }, Do: connect(p1)},
-				{Label: "connect p2", When: func(w *World) bool { return w.Listening() }, Do: connect(p2)},
 			},
 		}
 		if arg.Web {
-			o.Script = o.Script[:2]
 			o.EarlyScript = true // p1 joins while the web seed is already streaming
+		} else {
+			// both peers join together: a script item of its own would connect p2 only after p1 has served
+			// everything, and every deviation of p2 would be vacuous
+			o.Script[1].Label = "connect p1+p2"
+			o.Script[1].Do = func(w *World) { connect(p1)(w); connect(p2)(w) }
 		}
 		o.Extra = func(w *World) []Action {
 			var a []Action
@@ -161,6 +164,7 @@ func mkC01() *Scenario {
 							lastServed[p.Name] = r
 							w.Vars["corrupt:"+p.Name] = true
 							w.Count("corrupt_blocks", 1)
+							w.Count("corrupt_blocks_"+p.Name, 1)
 						}
 					}})
 					a = append(a, Action{Label: "adv:" + p.Name + ":short", Do: func(w *World) {
